@@ -33,6 +33,8 @@ func checkC01(w *World, r *Report) {
 	checkC01LazyInvariance(w, r, "C01.8")
 	checkNoEmptyCapture(w, r, "C01.9")
 	checkCursorReset(w, r, "C01.10")
+	checkStaticSearchExcludesWildcards(w, r, "C01.11")
+	checkReverseDefaults(w, r, "C01.12")
 }
 
 // ---- C01.1 --------------------------------------------------------------------------------------------------
@@ -997,5 +999,180 @@ func checkCursorReset(w *World, r *Report, id string) {
 			why += fmt.Sprintf("%s read at %s may hold the position reached in the node left at %s; ", cursor, w.Pos(token.Pos(k)), w.Pos(bad[token.Pos(k)]))
 		}
 		ru.Check(cursor+" in "+fname, w.Pos(af.decl.Pos()), "set to 0 between every change of `"+node+"` (after an advance) and the next read", why == "", orDefault(strings.TrimSuffix(why, "; "), fmt.Sprintf("%d reads of %s, none stale", nreads, cursor)))
+	}
+}
+
+// checkStaticSearchExcludesWildcards: the child tables index every child by the first byte of its key, so a param child
+// is filed under '{' and a catch-all child under '*'. The search for the *static* child compares that table with the
+// next request byte; if the request byte itself is '{' or '*' the search "finds" the wildcard child as if it were static
+// text and the priority static > {param} > *{catch-all} is bypassed (request /a/* with routes /a/{p} and /a/*{c} selects
+// the catch-all). The inner key/byte comparison of the same matcher already excludes the two bytes; the child search has
+// to as well.
+func checkStaticSearchExcludesWildcards(w *World, r *Report, id string) {
+	ru := r.Rule(id, "the static-child search cannot land on a wildcard child: in the path matcher, every search of current.childKeys for the next request byte is dominated by tests that this byte is neither '{' nor '*' (as the byte-by-byte comparison of the key is)", 1)
+	af := w.astFuncOf(modulePath, "lookupByPath")
+	isDelim := func(s string, want byte) bool {
+		switch want {
+		case '{':
+			return s == "bracketDelim" || s == "'{'"
+		default:
+			return s == "starDelim" || s == "'*'"
+		}
+	}
+	n := 0
+	check := func(at ast.Node, reqByte string) {
+		b, _ := af.blockOf(at)
+		if b == nil {
+			return
+		}
+		n++
+		notBrace, notStar := false, false
+		for _, f := range af.factsAt(b) {
+			for _, pr := range []struct {
+				op  token.Token
+				val bool
+			}{{token.NEQ, true}, {token.EQL, false}} {
+				if x, y, ok := isCmp(f.e, pr.op); ok && f.val == pr.val {
+					for _, xy := range [][2]string{{x, y}, {y, x}} {
+						if xy[0] == reqByte && isDelim(xy[1], '{') {
+							notBrace = true
+						}
+						if xy[0] == reqByte && isDelim(xy[1], '*') {
+							notStar = true
+						}
+					}
+				}
+			}
+		}
+		ru.Check("static child search in lookupByPath", w.Pos(at.Pos()), "guarded by "+reqByte+" != '{' and "+reqByte+" != '*'", notBrace && notStar, fmt.Sprintf("notBrace=%v notStar=%v", notBrace, notStar))
+	}
+	ast.Inspect(af.decl.Body, func(nd ast.Node) bool {
+		switch x := nd.(type) {
+		case *ast.BinaryExpr: // X.childKeys[i] == path[k]
+			if x.Op == token.EQL && strings.HasSuffix(exprStr(x.X), ".childKeys[i]") && strings.HasPrefix(exprStr(x.Y), "path[") {
+				check(x, exprStr(x.Y))
+			}
+		case *ast.CallExpr: // search helper (X.childKeys, path[k])
+			if len(x.Args) == 2 && strings.HasSuffix(exprStr(x.Args[0]), ".childKeys") && strings.HasPrefix(exprStr(x.Args[1]), "path[") {
+				check(x, exprStr(x.Args[1]))
+			}
+		}
+		return true
+	})
+	if n == 0 {
+		r.Unrecognised("%s: no search of the child keys for the next request byte found in lookupByPath", id)
+	}
+}
+
+// checkReverseDefaults: the three Reverse entry points (router, transaction, iterator) are the same operation on
+// different roots and have to hand the matcher the same path for the same argument: two of them default an empty path to
+// "/", so the third must too (sibling agreement).
+func checkReverseDefaults(w *World, r *Report, id string) {
+	ru := r.Rule(id, "the Reverse entry points agree on the path they hand to the matcher: if any of Router.Reverse, Txn.Reverse and Iter.Reverse replaces an empty path by \"/\" (cmp.Or(path, \"/\")), all of them do", 3)
+	type site struct {
+		name     string
+		fn       *ssa.Function
+		call     *ssa.Call
+		defaults bool
+	}
+	var sites []site
+	var defaultsSlash func(v ssa.Value, depth int) bool
+	defaultsSlash = func(v ssa.Value, depth int) bool {
+		if depth > 6 {
+			return false
+		}
+		v = seeThrough(v)
+		switch x := v.(type) {
+		case *ssa.Call:
+			if obj := calleeObj(x); obj != nil && obj.Pkg() != nil && obj.Pkg().Path() == "cmp" && obj.Name() == "Or" {
+				for _, el := range sliceElems(x.Call.Args[0]) {
+					if s, ok := constString(el); ok && s == "/" {
+						return true
+					}
+				}
+			}
+		case *ssa.Phi:
+			for _, e := range x.Edges {
+				if s, ok := constString(e); ok && s == "/" {
+					return true
+				}
+				if defaultsSlash(e, depth+1) {
+					return true
+				}
+			}
+		case *ssa.FreeVar: // a value captured by the iterator closure
+			fn := x.Parent()
+			if parent := fn.Parent(); parent != nil {
+				idx := -1
+				for i, fv := range fn.FreeVars {
+					if fv == x {
+						idx = i
+					}
+				}
+				found := false
+				eachInstr(parent, func(in ssa.Instruction) {
+					if mc, ok := in.(*ssa.MakeClosure); ok && mc.Fn == ssa.Value(fn) && idx >= 0 && idx < len(mc.Bindings) {
+						if defaultsSlash(mc.Bindings[idx], depth+1) {
+							found = true
+						}
+					}
+				})
+				return found
+			}
+		}
+		return false
+	}
+	// the lookup call of an entry point: in the function, its closures, or a helper it calls (arguments substituted)
+	var findLookup func(fn *ssa.Function, subst func(ssa.Value) ssa.Value, depth int) (*ssa.Call, ssa.Value)
+	findLookup = func(fn *ssa.Function, subst func(ssa.Value) ssa.Value, depth int) (*ssa.Call, ssa.Value) {
+		var call *ssa.Call
+		var pathV ssa.Value
+		for _, g := range withAnon(fn) {
+			eachInstr(g, func(in ssa.Instruction) {
+				c, ok := in.(*ssa.Call)
+				if !ok || call != nil || c.Call.StaticCallee() == nil {
+					return
+				}
+				cal := c.Call.StaticCallee()
+				if cal.Name() == "lookup" && len(c.Call.Args) >= 5 {
+					call, pathV = c, subst(c.Call.Args[len(c.Call.Args)-3])
+					return
+				}
+				if depth < 2 && w.InModule(cal) && len(cal.Blocks) > 0 && cal.Name() != "Get" {
+					inner := func(v ssa.Value) ssa.Value {
+						if p, ok := v.(*ssa.Parameter); ok && p.Parent() == cal {
+							if k := paramIndex(cal, p); k >= 0 && k < len(c.Call.Args) {
+								return subst(c.Call.Args[k])
+							}
+						}
+						return v
+					}
+					if c2, pv := findLookup(cal, inner, depth+1); c2 != nil {
+						call, pathV = c, pv
+					}
+				}
+			})
+		}
+		return call, pathV
+	}
+	for _, spec := range [][2]string{{"Router", "Reverse"}, {"Txn", "Reverse"}, {"Iter", "Reverse"}} {
+		fn := w.Method(spec[0], spec[1])
+		if fn == nil {
+			r.Unrecognised("%s: %s.%s not found", id, spec[0], spec[1])
+			continue
+		}
+		c, pv := findLookup(fn, func(v ssa.Value) ssa.Value { return v }, 0)
+		if c == nil {
+			r.Unrecognised("%s: no matcher call reachable from %s.%s", id, spec[0], spec[1])
+			continue
+		}
+		sites = append(sites, site{spec[0] + "." + spec[1], fn, c, defaultsSlash(pv, 0)})
+	}
+	any := false
+	for _, s := range sites {
+		any = any || s.defaults
+	}
+	for _, s := range sites {
+		ru.Check("path handed to the matcher by "+s.name, w.Pos(s.call.Pos()), "same defaulting of an empty path as the sibling entry points", s.defaults == any, fmt.Sprintf("defaultsEmptyPathToSlash=%v siblingsDo=%v", s.defaults, any))
 	}
 }
